@@ -210,6 +210,40 @@ func gostringIssues(rs *Resid, fn *ast.FuncDecl, maxIter int) ([]sideIssue, int,
 		return nil, 0, und
 	}
 	seenErr := map[string]bool{}
+	// the function's result is the text assembled in the buffer: a return of anything else (a literal such as "nil") hands out
+	// text that did not go through the assembly analysed here, and it must meet the same shape: `func() T { … }()`
+	ast.Inspect(fn.Body, func(n ast.Node) bool {
+		if _, isLit := n.(*ast.FuncLit); isLit {
+			return false
+		}
+		ret, ok := n.(*ast.ReturnStmt)
+		if !ok || len(ret.Results) != 1 {
+			return true
+		}
+		if c, ok := unparen(ret.Results[0]).(*ast.CallExpr); ok {
+			if sel, ok := c.Fun.(*ast.SelectorExpr); ok && sel.Sel.Name == "String" && len(c.Args) == 0 {
+				return true
+			}
+		}
+		if bl, ok := unparen(ret.Results[0]).(*ast.BasicLit); ok && bl.Kind == token.STRING {
+			txt, _ := strconv.Unquote(bl.Value)
+			e, err := parser.ParseExpr(strings.TrimSpace(txt))
+			okShape := false
+			if err == nil {
+				if call, ok := e.(*ast.CallExpr); ok {
+					if lit, ok := call.Fun.(*ast.FuncLit); ok && len(call.Args) == 0 && lit.Type.Results.NumFields() == 1 {
+						okShape = true
+					}
+				}
+			}
+			if !okShape {
+				iss(ret, "stage2-shape", "returns the literal text %s instead of the assembled `func() T { … }()`: an untyped expression such as nil has no type of its own, so the text does not compile wherever the context does not supply one (`key := nil`, an interface argument)", bl.Value)
+			}
+			return true
+		}
+		iss(ret, "stage2-shape", "returns %s, which is not the text assembled in the buffer", rs.src(ret.Results[0]))
+		return true
+	})
 	for _, p := range paths {
 		for _, n := range p.notes {
 			if !seenErr["note:"+n] {
